@@ -3572,15 +3572,31 @@ def l_in(_, instr, src1, src2):
     return e, []
 
 
-@sbuild.parse
-def cmpxchg(arg1, arg2):
-    accumulator = mRAX[instr.v_opmode()][:arg1.size]
-    if (accumulator - arg1):
-        zf = i1(0)
-        accumulator = arg1
+def cmpxchg(ir, instr, dst, src):
+    size = dst.size
+    if size == 8:
+        accumulator = mRAX[instr.mode][:8]
     else:
-        zf = i1(1)
-        arg1 = arg2
+        accumulator = mRAX[size]
+
+    # Flags are those of CMP accumulator, dst
+    result = accumulator - dst
+    e = []
+    e += update_flag_arith_sub_znp(accumulator, dst)
+    e += update_flag_arith_sub_co(accumulator, dst, result)
+    e += update_flag_af(accumulator, dst, result)
+
+    loc_eq, loc_eq_expr = ir.gen_loc_key_and_expr(ir.IRDst.size)
+    loc_ne, loc_ne_expr = ir.gen_loc_key_and_expr(ir.IRDst.size)
+    loc_next_expr = m2_expr.ExprLoc(ir.get_next_loc_key(instr), ir.IRDst.size)
+    e.append(m2_expr.ExprAssign(
+        ir.IRDst, m2_expr.ExprCond(result, loc_ne_expr, loc_eq_expr)))
+    e_eq = [m2_expr.ExprAssign(dst, src),
+            m2_expr.ExprAssign(ir.IRDst, loc_next_expr)]
+    e_ne = [m2_expr.ExprAssign(accumulator, dst),
+            m2_expr.ExprAssign(ir.IRDst, loc_next_expr)]
+    return e, [IRBlock(ir.loc_db, loc_eq, [AssignBlock(e_eq, instr)]),
+               IRBlock(ir.loc_db, loc_ne, [AssignBlock(e_ne, instr)])]
 
 
 @sbuild.parse
